@@ -218,6 +218,11 @@ func (c *ctx) autoInline(s mptSpec, pr *PathRule) func(*ssa.Function) bool {
 		if _, isRet := in.(*ssa.Return); !isRet && s.target != nil && s.target(in, nil, nil) != "" {
 			return true
 		}
+		if v, ok := in.(ssa.Value); ok && pr.Atom != nil {
+			if n, _ := pr.Atom(v); n != "" {
+				return true
+			}
+		}
 		return false
 	}
 	memo := map[*ssa.Function]int{} // 0 unknown, 1 yes, 2 no
